@@ -778,14 +778,20 @@ def tailStage (x : Ext) (input : List Char) (start nameStart nameEnd : Nat) (nam
           match c.next with
           | some ((pos, ch), _) =>
             let other : PErr := ⟨.string, pos, utf8Len ch⟩
-            if marker.isNone && kind.isUrl then
+            if kind.isUrl then
               let urlEnd := match calls.getLast? with
                 | some (.url _ s l) => s + l
                 | _ => pos
               ⟨calls, .urlEnds [(';', ⟨.string, urlEnd - 1, 1⟩), ('#', ⟨.string, urlEnd - 1, 1⟩)] other⟩
             else ⟨calls, .err other⟩
           | none =>
-            ⟨calls, .ok ⟨name, extras, kind, marker.getD (.leaf true), warns⟩⟩
+            let r : ReqOk := ⟨name, extras, kind, marker.getD (.leaf true), warns⟩
+            if marker.isSome && kind.isUrl then
+              let urlEnd := match calls.getLast? with
+                | some (.url _ s l) => s + l
+                | _ => c.pos
+              ⟨calls, .urlEndsOk [(';', ⟨.string, urlEnd - 1, 1⟩), ('#', ⟨.string, urlEnd - 1, 1⟩)] r⟩
+            else ⟨calls, .ok r⟩
 
 theorem parseRequirement_eq (env : ProcEnv) (x : Ext) (input : List Char) :
     parseRequirement env x input =
@@ -937,6 +943,19 @@ def ReqOut.Good (input : List Char) (o : ReqOut) : Prop :=
       ∃ t s l w, o.calls = [.url t s l] ∧ t ≠ [] ∧ t.getLast? ≠ some ';' ∧ t.getLast? ≠ some '#' ∧
         isWs w = true ∧ sliceBytes input (s + l) (utf8Len w) = some [w] ∧
         ∀ ch e, (ch, e) ∈ alts → (ch = ';' ∨ ch = '#') ∧ e.start = s + l - 1
+  | .urlEndsOk alts _ =>
+      ∃ t s l w, o.calls = [.url t s l] ∧ t ≠ [] ∧ t.getLast? ≠ some ';' ∧ t.getLast? ≠ some '#' ∧
+        isWs w = true ∧ sliceBytes input (s + l) (utf8Len w) = some [w] ∧
+        ∀ ch e, (ch, e) ∈ alts → (ch = ';' ∨ ch = '#') ∧ e.start = s + l - 1
+
+/-- a marker was parsed only if a `;` was there -/
+theorem markerStage_some_rest (x : Ext) (input : List Char) (c : Cursor) (m : MTree)
+    (w : List WarnKind) (c' : Cursor) (h : markerStage x input c = .ok (some m, w, c')) : c.rest ≠ [] := by
+  intro h0
+  unfold markerStage at h
+  have : c.peekChar = none := by unfold Cursor.peekChar; rw [h0]; rfl
+  rw [this] at h
+  simp at h
 
 theorem tailStage_good (x : Ext) (input : List Char) (start nameStart nameEnd : Nat) (name : List Nat)
     (extras : List (List Nat)) (c : Cursor) (r : List ExtCall × Res (ReqKind × Cursor))
@@ -976,14 +995,52 @@ theorem tailStage_good (x : Ext) (input : List Char) (start nameStart nameEnd : 
         obtain ⟨i2, in2, hnil⟩ := g
         dsimp only
         have i3 := inv_eatWhitespace i2
+        have hurlfacts : ∀ t, kind = .url t → c'.rest ≠ [] →
+            ∃ t s l w, calls = [.url t s l] ∧ t ≠ [] ∧ t.getLast? ≠ some ';' ∧ t.getLast? ≠ some '#' ∧
+              isWs w = true ∧ sliceBytes input (s + l) (utf8Len w) = some [w] ∧
+              ∀ ch e, (ch, e) ∈ [(';', (⟨.string, (match calls.getLast? with
+                    | some (.url _ s l) => s + l
+                    | _ => 0) - 1, 1⟩ : PErr)), ('#', ⟨.string, (match calls.getLast? with
+                    | some (.url _ s l) => s + l
+                    | _ => 0) - 1, 1⟩)] → (ch = ';' ∨ ch = '#') ∧ e.start = s + l - 1 := by
+          intro t ht hne
+          obtain ⟨s, l, hc1, hte, hc2⟩ := hurl t ht
+          rcases hc2 with h0 | ⟨g1, g2, w, g3, g4, g5⟩
+          · exact absurd h0 hne
+          · rw [hin] at g4
+            refine ⟨t, s, l, w, hc1, hte, g1, g2, g3, g4, ?_⟩
+            intro ch e hm
+            subst hc1
+            simp only [List.mem_cons, Prod.mk.injEq, List.mem_nil_iff, or_false] at hm
+            rcases hm with ⟨rfl, rfl⟩ | ⟨rfl, rfl⟩ <;> simp
         cases hn : c2.eatWhitespace.next with
-        | none => exact ⟨hcalls, trivial⟩
+        | none =>
+          dsimp only
+          by_cases hcond : (marker.isSome && kind.isUrl) = true
+          · simp only [hcond, if_true]
+            refine ⟨hcalls, ?_⟩
+            cases kind with
+            | none => simp [ReqKind.isUrl] at hcond
+            | specs ts => simp [ReqKind.isUrl] at hcond
+            | url t =>
+              cases marker with
+              | none => simp at hcond
+              | some m =>
+                have hne : c'.rest ≠ [] := by
+                  intro h0
+                  exact markerStage_some_rest x input _ m warns c2 hm (rest_nil_eatWhitespace h0)
+                obtain ⟨t', s, l, w, hc1, r⟩ := hurlfacts t rfl hne
+                refine ⟨t', s, l, w, hc1, ?_⟩
+                subst hc1
+                simpa using r
+          · simp only [hcond, Bool.false_eq_true, if_false]
+            exact ⟨hcalls, trivial⟩
         | some v =>
           obtain ⟨⟨pos, ch⟩, c4⟩ := v
           obtain ⟨_, _, _, hb⟩ := next_spec i3 hn
           rw [eatWhitespace_input, in2] at hb
           dsimp only
-          by_cases hcond : (marker.isNone && kind.isUrl) = true
+          by_cases hcond : kind.isUrl = true
           · simp only [hcond, if_true]
             refine ⟨hcalls, hb, ?_⟩
             have hne : c'.rest ≠ [] := by
@@ -994,15 +1051,10 @@ theorem tailStage_good (x : Ext) (input : List Char) (start nameStart nameEnd : 
             | none => simp [ReqKind.isUrl] at hcond
             | specs ts => simp [ReqKind.isUrl] at hcond
             | url t =>
-              obtain ⟨s, l, hc1, hte, hc2⟩ := hurl t rfl
-              rcases hc2 with h0 | ⟨g1, g2, w, g3, g4, g5⟩
-              · exact absurd h0 hne
-              · rw [hin] at g4
-                refine ⟨t, s, l, w, hc1, hte, g1, g2, g3, g4, ?_⟩
-                intro ch e hm
-                subst hc1
-                simp only [List.mem_cons, Prod.mk.injEq, List.mem_nil_iff, or_false] at hm
-                rcases hm with ⟨rfl, rfl⟩ | ⟨rfl, rfl⟩ <;> simp
+              obtain ⟨t', s, l, w, hc1, r⟩ := hurlfacts t rfl hne
+              refine ⟨t', s, l, w, hc1, ?_⟩
+              subst hc1
+              simpa using r
           · simp only [hcond, Bool.false_eq_true, if_false]
             exact ⟨hcalls, hb⟩
 
@@ -1187,6 +1239,44 @@ theorem parseRequirement_urlEnds_alts_scanned (env : ProcEnv) (x : Ext) (input :
   obtain ⟨_, _, _, _, _, _, _, _, _, _, h6⟩ := parseRequirement_urlEnds_shape env x input alts other hs
   refine parseRequirement_urlEnds_alts env x input alts other hs ch e hm t s l hc ch hlast ?_
   rcases (h6 ch e hm).1 with rfl | rfl <;> decide
+
+/-- the `urlEndsOk` outcome (F20: a marker follows the URL): same shape facts -/
+theorem parseRequirement_urlEndsOk_shape (env : ProcEnv) (x : Ext) (input : List Char)
+    (alts : List (Char × PErr)) (r : ReqOk) :
+    (parseRequirement env x input).fin = .urlEndsOk alts r →
+      ∃ t s l w, (parseRequirement env x input).calls = [.url t s l] ∧ t ≠ [] ∧
+        t.getLast? ≠ some ';' ∧ t.getLast? ≠ some '#' ∧ isWs w = true ∧
+        sliceBytes input (s + l) (utf8Len w) = some [w] ∧
+        ∀ ch e, (ch, e) ∈ alts → (ch = ';' ∨ ch = '#') ∧ e.start = s + l - 1 := by
+  intro hs
+  have g := (parseRequirement_good env x input).2
+  rw [hs] at g
+  exact g
+
+/-- every alternative of `urlEndsOk` starts on a char boundary provided the last char of the scanned
+URL text is a 1-byte char (cf. `parseRequirement_urlEnds_alts`) -/
+theorem parseRequirement_urlEndsOk_alts (env : ProcEnv) (x : Ext) (input : List Char)
+    (alts : List (Char × PErr)) (r : ReqOk)
+    (hs : (parseRequirement env x input).fin = .urlEndsOk alts r)
+    (ch : Char) (e : PErr) (hm : (ch, e) ∈ alts) (t : List Char) (s l : Nat)
+    (hc : ExtCall.url t s l ∈ (parseRequirement env x input).calls)
+    (lastc : Char) (hlast : t.getLast? = some lastc) (h1 : utf8Len lastc = 1) :
+    Boundary input e.start := by
+  obtain ⟨t', s', l', w, hcalls, _, _, _, _, _, h6⟩ :=
+    parseRequirement_urlEndsOk_shape env x input alts r hs
+  have hok := parseRequirement_calls env x input _ hc
+  rw [hcalls] at hc
+  simp only [List.mem_singleton, ExtCall.url.injEq] at hc
+  obtain ⟨rfl, rfl, rfl⟩ := hc
+  rw [(h6 ch e hm).2]
+  obtain ⟨pre, r', e1, e2, e3⟩ := sliceBytes_some hok.2
+  obtain ⟨init, rfl⟩ : ∃ init, t = init ++ [lastc] := by
+    rw [List.getLast?_eq_some_iff] at hlast
+    exact hlast
+  refine ⟨pre ++ init, lastc :: r', by rw [e1]; simp, ?_⟩
+  rw [e2, e3, strLen_append, strLen_append]
+  simp only [strLen_cons, strLen_nil, h1]
+  omega
 
 /-! ### spelled-out statements for the sub-parsers -/
 
